@@ -26,7 +26,7 @@ let rec take_fields n l acc =
   | _ -> failwith "field block"
 let names l = String.concat "," (List.map hex_of_bytes l)
 let () =
-  let cases = ref 0 and specfail = ref 0 and mismatch = ref 0 and fields = ref 0 and skipped = ref 0 and failed = ref 0 in
+  let cases = ref 0 and specfail = ref 0 and mismatch = ref 0 and fields = ref 0 and skipped = ref 0 and failed = ref 0 and drift = ref 0 and later_acc = ref 0 and chg_err = ref 0 in
   iter_lines Sys.argv.(1) (fun line ->
     match split_ws line with
     | "E" :: isz :: callno :: unchanged :: vec :: cfgfile :: b64set :: ok :: rest :: help :: n :: blocks ->
@@ -44,5 +44,10 @@ let () =
         else if not (verdict_ok v) then begin
           incr mismatch;
           Printf.printf "MISMATCH %s model-differs=%s outcome=%b rest=%b parsers=%b\n" line (names v.v_model_fail) v.v_outcome v.v_rest v.v_parsers end
+        else if v.v_later_accepted || v.v_changed_on_error then begin
+          incr drift;
+          if v.v_later_accepted then incr later_acc;
+          if v.v_changed_on_error then incr chg_err;
+          Printf.printf "DRIFT %s later-parse-accepted=%b fields-changed-on-error=%b\n" line v.v_later_accepted v.v_changed_on_error end
     | _ -> ());
-  Printf.printf "STATS cases=%d specfail=%d mismatch=%d drift=0 fields=%d skipped=%d failed_parses=%d\n" !cases !specfail !mismatch !fields !skipped !failed
+  Printf.printf "STATS cases=%d specfail=%d mismatch=%d drift=%d fields=%d skipped=%d failed_parses=%d later_parse_accepted=%d fields_changed_on_error=%d\n" !cases !specfail !mismatch !drift !fields !skipped !failed !later_acc !chg_err
